@@ -15,3 +15,15 @@ mod utils;
 /// The Rust toolchain used by `pavexc` to generate JSON docs, unless
 /// overridden by the user.
 pub static DEFAULT_DOCS_TOOLCHAIN: &str = "nightly-2025-12-15";
+
+#[cfg(feature = "verif_hooks")]
+/// Verification hook (H4): drive the crate-private domain guard validator in-process.
+///
+/// Returns the `matchit` pattern the compiler would register for an accepted guard,
+/// or the error message for a rejected one.
+pub fn verif_domain_guard(raw: &str) -> Result<String, String> {
+    match compiler::verif_domain_guard_new(raw.to_owned()) {
+        Ok(p) => Ok(p),
+        Err(e) => Err(e),
+    }
+}
